@@ -452,7 +452,9 @@ impl PartitionSampler {
         let total_stake: Stake = validators.iter().map(|v| v.stake).sum();
         let stake_per_bin = total_stake.div_ceil(num_bins as u64);
         let mut validators_random = validators;
-        validators_random.shuffle(&mut rand::rng());
+        // NOTE: every node has to derive the same partition from the same validator set,
+        // so the permutation must not depend on node-local randomness
+        validators_random.shuffle(&mut StdRng::seed_from_u64(0));
 
         // partition into bins
         let mut current_bin = 0;
